@@ -18,7 +18,7 @@
 (*   kend / mend      no clean window is left                              *)
 (* Internal registers are not looked at here (the short traces do that).   *)
 (***************************************************************************)
-EXTENDS MinOps, TraceLib, SequencesExt
+EXTENDS MinOps, TraceLib, FiniteSets
 VARIABLES base,      \* index of the init event of the current run (0: none)
           nxt,       \* kmers: position after the last item (1-based end of window); runs: 0-based start of the first window not yet accounted for
           lastv,     \* runs: minimiser of the previous run, <<>> if the previous window was not in a run
@@ -79,26 +79,18 @@ TMRun == /\ Is("mrun") /\ ~Idle /\ Rec[base].ev = "minit"
                /\ s >= nxt /\ e - s >= W /\ e <= N
                /\ \A t \in nxt..(s - 1) : ~CleanB(t + 1, W)     \* no clean window skipped
                /\ CleanB(s + 1, e - s)                           \* the whole span is clean
-               \* every window of the run has minimiser v - RunCover!AllWindowsOnePass written out on the span's canonical m-mers
+               \* every window of the run has minimiser v - RunCover!AllWindowsByLast written out on the span's canonical m-mers
                \* (one pass over the span instead of one per window; the equivalence with the plain form is model-checked
-               \* there): nothing in the span is smaller than v, and every window holds an occurrence of v (first occurrence in the
-               \* first window, last in the last, neighbours no further apart than a window is wide)
+               \* there): nothing in the span is smaller than v, and every window holds an occurrence of v (for a handful of occurrences
+               \* window by window; otherwise through the most recent occurrence at or before the window's last m-mer)
                /\ LET cm == [j \in (s + 1)..(e - M + 1) |-> Canon(Dig(j, M))]       \* canonical m-mers of the span, once
                       occset == {j \in (s + 1)..(e - M + 1) : cm[j] = v}            \* where v occurs
                       q == W - M + 1                                                  \* m-mers per window
-                      \* few occurrences: their sorted positions (RunCover!AllWindowsOnePass)
-                      occ == SetToSortSeq(occset, <)
-                      n == Len(occ)
                       \* many occurrences: the most recent one at or before j (RunCover!AllWindowsByLast; shallow recursion)
                       last[j \in s..(e - M + 1)] == IF j = s THEN 0 ELSE IF cm[j] = v THEN j ELSE last[j - 1]
                   IN /\ \A j \in (s + 1)..(e - M + 1) : ~LexLess(cm[j], v)
                      /\ IF Cardinality(occset) <= 24 /\ e - W - s < 5000      \* a handful: window by window, as stated
                         THEN \A t \in s..(e - W) : {j \in occset : j >= t + 1 /\ j <= t + 1 + W - M} # {}      \* (a set test: \E in an action branches)
-                        ELSE IF Cardinality(occset) <= 1500
-                        THEN /\ n >= 1
-                             /\ occ[1] <= s + q                       \* inside the first window
-                             /\ occ[n] >= e - W + 1                   \* inside the last window
-                             /\ \A i \in 1..(n - 1) : occ[i + 1] - occ[i] <= q
                         ELSE \A t \in s..(e - W) : last[t + 1 + W - M] >= t + 1
                /\ (adj /\ s = nxt) => lastv # v                 \* maximal on the left
                /\ IF Rec[base].kv = 1
